@@ -278,6 +278,12 @@ def run_tlc(module, cfg=None, workers=None, env=None, coverage=False, simulate=N
 
   Raises Machinery on SANY/parse/evaluation errors that are not invariant/property violations.
   """
+  if os.environ.get("VERIF_SELFCHECK") and os.path.basename(module).startswith("Trace_") and not extra:
+    import selfcheck
+    kw = dict(cfg=cfg, workers=workers, coverage=False, timeout=timeout, deadlock=deadlock, cwd=cwd, dfs=dfs,
+              extra=("-selfcheck-inner",))
+    selfcheck.maybe_selfcheck(module, cfg, env, lambda e: run_tlc(module, env=e, **kw))
+  extra = tuple(x for x in extra if x != "-selfcheck-inner")
   workers = workers or min(16, os.cpu_count() or 1)
   meta = tempfile.mkdtemp(prefix="tlcmeta_", dir=scratch_root())
   cmd = ["java", "-XX:+UseSerialGC" if workers == 1 else "-XX:+UseParallelGC", "-Xss16m"]
@@ -328,7 +334,8 @@ def scratch_root():
   if _SCRATCH is None:
     import atexit
     _SCRATCH = tempfile.mkdtemp(prefix="verif_")
-    atexit.register(lambda: shutil.rmtree(_SCRATCH, ignore_errors=True))
+    if not os.environ.get("VERIF_KEEP_SCRATCH"):          # debugging aid: keep traces for inspection
+      atexit.register(lambda: shutil.rmtree(_SCRATCH, ignore_errors=True))
   return _SCRATCH
 
 
